@@ -232,7 +232,7 @@ def uncontracted_table(repo, files):
         ext = extracted_values()
         for label, sha in value_items(path).items():
             last = label.split(" / ")[-1]
-            if (f, last.split()[-1]) in ext and last.split()[0] in ("const", "static", "macro"):
+            if (f, last.split()[-1]) in ext and last.split()[0] in ("const", "static", "macro", "macro_rules!"):
                 continue
             table.setdefault(f, {})["[value] " + label] = sha
     return table
@@ -242,7 +242,11 @@ def extracted_values():
     """(file, NAME) of the const / static / bitflags items some Verus unit extracts (their text reaches the verifier)"""
     out = set()
     for u in sorted(glob.glob(os.path.join(ROOT, "units", "*", "unit.rs")) + glob.glob(os.path.join(ROOT, "units", "common", "*.rs"))):
-        for m in re.finditer(r"^//@(?:extract_const|bitflags|tls_init_expr)\s+file=(\S+)\s+name=(\w+)", open(u).read(), re.M):
+        txt = open(u).read()
+        for m in re.finditer(r"^//@(?:extract_const|bitflags|tls_init_expr)\s+file=(\S+)\s+name=(\w+)", txt, re.M):
+            out.add((m.group(1), m.group(2)))
+        # functions generated by a macro_rules! definition that a unit extracts from the macro's body (rule R28)
+        for m in re.finditer(r'^//@extract file=(\S+) item="macro_rules!\s*(\w+)\s*/', txt, re.M):
             out.add((m.group(1), m.group(2)))
     return out
 
